@@ -37,6 +37,34 @@ def concretise(behs, rnd, script_share):
     return out
 
 
+OTHER_ANNS = ["size", "hash", "none"]     # besides "both": what the offer announces about the file
+
+
+def announcements(one_fault, rnd, quick):
+    """Offers that do not announce size and hash (sendFile(jid, device, fileInfo) with the fields of the
+    QXmppTransferFileInfo left unset: generated data; a size of 0 means 'unknown' in this code base).
+    Fault-free: the size sweep, real sender and scripted sender, for each announcement.  One stream
+    fault: every path of the one-fault model, real sender, with only the size or only the hash announced
+    (thorough: also with nothing announced, where only the model's prediction is compared)."""
+    out = []
+    for ann in OTHER_ANNS:
+        for size in [0, 1, 2, REAL_BS - 1, REAL_BS, REAL_BS + 1, 2 * REAL_BS - 1, 2 * REAL_BS, 2 * REAL_BS + 1, 3 * REAL_BS,
+                     7 * REAL_BS + 5]:
+            out.append({"n": (size + REAL_BS - 1) // REAL_BS, "steps": [{"a": "Offer"}], "sender": "real", "bs": REAL_BS,
+                        "size": size, "ann": ann, "cseed": rnd.getrandbits(40), "kind": "sweep"})
+        for bs in ([1, 3, 1000] if quick else [1, 2, 3, 16, 1000, 4095, 4096]):
+            for size in [0, 1, bs - 1, bs, bs + 1, 2 * bs, 3 * bs + 1]:
+                out.append({"n": (size + bs - 1) // bs, "steps": [{"a": "Offer"}], "sender": "script", "bs": bs,
+                            "size": size, "ann": ann, "cseed": rnd.getrandbits(40), "kind": "sweep"})
+    nsweep = len(out)
+    for ann in (["size", "hash"] if quick else OTHER_ANNS):
+        for i, b in enumerate(one_fault):
+            if quick and b["n"] > 4:
+                continue
+            out.append(dict(b, sender="real", bs=REAL_BS, size=sizes_for(b["n"], REAL_BS, i), ann=ann, cseed=rnd.getrandbits(40)))
+    return out, nsweep
+
+
 def sweep(rnd, quick):
     """Fault-free transfers, sizes around block boundaries x block sizes (drained by the harness)."""
     out = []
@@ -118,6 +146,17 @@ def run_s5(chk, quick, rnd, replay_execs=None):
             for i, b in enumerate(classes):
                 size = b["n"] * unit - (i % 2 if unit > 1 and b["n"] > 0 else 0)     # last unit full / one byte short
                 execs.append(dict(b, method="socks5", unit=unit, size=size, cseed=rnd.getrandbits(40)))
+        # offers that announce less: fault-free for every announcement; one fault where what is announced must notice it
+        for ann in OTHER_ANNS:
+            for i, b in enumerate(classes):
+                flt = [st["k"] for st in b["steps"] if st["a"] == "Fault"]
+                if not flt:
+                    if quick and b["n"] not in (0, 1, 3):
+                        continue
+                elif quick or not (ann == "hash" or (ann == "size" and flt[0] in ("Drop", "Cut"))):
+                    continue
+                size = b["n"] * 1000 - (i % 2 if b["n"] > 0 else 0)
+                execs.append(dict(b, method="socks5", unit=1000, size=size, ann=ann, cseed=rnd.getrandbits(40)))
     if not execs:
         return [], {}, {"cases": 0, "lines": 0, "viol": [], "ndiv": 0, "divs": [], "faulted": 0, "clean": 0, "wall_s": 0}
     vf.write_ndjson(chk.path("behaviours-s5.ndjson"), execs)
@@ -149,7 +188,7 @@ def run_s5(chk, quick, rnd, replay_execs=None):
 
 def short_s5(b):
     f = [s for s in b["steps"] if s["a"] == "Fault"]
-    return f"socks5/unit={b.get('unit')}/size={b.get('size')}/n={b['n']}:" + (f"{f[0]['k']}(unit {f[0]['u']})" if f else "clean")
+    return f"socks5/ann={b.get('ann', 'both')}/unit={b.get('unit')}/size={b.get('size')}/n={b['n']}:" + (f"{f[0]['k']}(unit {f[0]['u']})" if f else "clean")
 
 
 def klass(b, lines):
@@ -159,7 +198,7 @@ def klass(b, lines):
     c = "+".join(ks) if ks else "clean"
     if inj and not ks:
         c += "+inject(" + ",".join(inj) + ")"
-    return c + (":blocks>65536" if b["n"] > 65536 else "")
+    return c + (":blocks>65536" if b["n"] > 65536 else "") + (":ann=" + b["ann"] if b.get("ann", "both") != "both" else "")
 
 
 def short(b):
@@ -168,7 +207,7 @@ def short(b):
         a = s["a"]
         parts.append({"RDeliver": "R", "SDeliver": "S", "Offer": "O"}.get(a, a) +
                      ("(" + str(s.get("k", s.get("w"))) + ")" if a in ("Fault", "Inject", "Burst") else ""))
-    return f"{b.get('sender', 'real')}/bs={b.get('bs')}/size={b.get('size')}/n={b['n']}:" + ",".join(parts)
+    return f"{b.get('sender', 'real')}/ann={b.get('ann', 'both')}/bs={b.get('bs')}/size={b.get('size')}/n={b['n']}:" + ",".join(parts)
 
 
 def validate_in_chunks(chk, trace, max_lines=60000):
@@ -242,6 +281,9 @@ def run(chk, replay=None):
             chk.cov["generation"].update({"tour_two_faults": st4, "simulate_two_faults": st5})
         execs = concretise(vf.maximal_behaviours(one + inj + mix), rnd, 0.5 if quick else 1.0) + concretise(extra, rnd, 1.0)
         sw = sweep(rnd, quick)
+        an, nsw = announcements(vf.maximal_behaviours(one), rnd, quick)
+        chk.cov["generation"]["other_announcements"] = {"fault_free_sweep": nsw, "one_fault": len(an) - nsw}
+        sw = sw + an
         lg = long_cases(rnd, quick)
         chk.cov["generation"].update({"size_sweep": len(sw), "long_transfers": len(lg)})
         execs = execs + sw + lg
@@ -343,7 +385,7 @@ def run(chk, replay=None):
         end = s5_cases[case][-1].get("o", {})
         for v in sorted(by_case5[case], key=lambda v: v["prop"]):
             sig = "C19:" + v["prop"] + ":socks5:" + (s5_cases[case][0].get("k") if end.get("applied") else "clean") + \
-                (":empty-file" if b["size"] == 0 else "")
+                (":empty-file" if b["size"] == 0 else "") + (":ann=" + b["ann"] if b.get("ann", "both") != "both" else "")
             if sig in reported5 or len(reported5) >= 4:
                 continue
             reported5.add(sig)
@@ -356,7 +398,10 @@ def run(chk, replay=None):
         raise vf.MachineryError("qxv ibb ended abnormally (" + sg + ") while replaying " + (short(b) if b else "?") + ": " +
                                 "; ".join(r["sanitizer"][:3]) + " " + r["stderr"][-600:])
     chk.assumptions += [
-        "offers announce size and MD5 hash (what sendFile(path) produces); without them alteration of a block is undetectable",
+        "the fault-free clause (both sides NoError, byte-for-byte copy) is checked for offers announcing size+hash, size only, "
+        "hash only and nothing (a size of 0 = not announced); fault detection is claimed for what the announcement can notice: "
+        "hash -> every single fault, size only -> all but a length-preserving alteration (SOCKS5: a stream that ends short), "
+        "nothing announced -> no fault detection claimed (undetectable by anyone)",
         "in-band: IQ-based IBB (stop-and-wait); the network damages data blocks of the stream (and may acknowledge on the "
         "receiver's behalf to reorder or continue after a loss); it does not forge offer/open stanzas",
         "SOCKS5: direct connection (no XEP-0065 proxy activation); faults act on the data bytes of the TCP stream; a "
